@@ -121,6 +121,8 @@ def phase1(chk, insts):
         bfr = 0 if big["kind"] == "ok" else big["code"]
         if fr != bfr or free.get("top") != big.get("top") or big.get("eq", 1) != 1 or (big["kind"] == "ok" and big["same"] != 1) or big["det"] != 1 or free["det"] != 1:
             what = ("the output of a render with a fuel budget (2^40, never exhausted) differs from the unlimited-fuel output" if big["kind"] == "ok" and fr == 0 and big["same"] != 1
+                    else "a render that fails with %s without fuel fails with %s under a budget of 2^40 that it never exhausts: no budget reproduces the unlimited outcome"
+                    % (ERR_NAMES.get(fr, fr), ERR_NAMES.get(bfr, bfr)) if fr != 0 and bfr != 0 and fr != bfr
                     else "budget 2^40 changes the result of the render or repetitions differ")
             problems.append((what, list(inst) + [BIG], {"nofuel": outs[False][2 * i], "big": outs[False][2 * i + 1]}))
             continue
